@@ -940,6 +940,8 @@ func round7(w *World, r *Report, prop string) {
 		r.Rule("R04.27", "an unterminated token is an error wherever the input ends: every way out of ConstructToken has either read on with Next() or set an error (the end of input is detected in the collection loop, which no path may bypass)", 1)
 		r.guard("R04.27", func() { r7TokenEndDetected(w, r, "R04.27") })
 	case "C05":
+		r.Rule("R05.16", "a checked type assertion is checked: in package xpath no `v, ok := x.(T)` uses v while ignoring ok (a stack entry that is not a Datum must end the run with an error, not travel on as a nil Datum that yields neither a value nor an error)", 3)
+		r.guard("R05.16", func() { r8CommaOkUsed(w, r, "R05.16") })
 		r.Rule("R05.15", "a leafref predicate is evaluated only in the state its instructions were written for: LRefEquals raises its error unless exactly one key name element is pending", 1)
 		r.guard("R05.15", func() { r7ExactlyOneKeyName(w, r, "R05.15") })
 	case "C07":
@@ -1175,5 +1177,50 @@ func r8ComparisonsIndependent(w *World, r *Report, rule string) {
 			}
 		}
 		r.Check(other == "", rule, "ProgBuilder."+n, f.Pos(), "calls none of the other comparison instructions", "is computed from "+other+": over node-sets every comparison is existential (some pair compares true), so one operator is not the complement or the converse of another — an absent leaf must be false under both `=` and `!=`, and a leaf-list with the values {red, blue} is both `= 'red'` and `!= 'red'`")
+	}
+}
+
+// r8CommaOkUsed (R05.16): every comma-ok type assertion of package xpath whose
+// value is used has its ok flag used as well.
+func r8CommaOkUsed(w *World, r *Report, rule string) {
+	n := 0
+	for _, fn := range allFuncs(w.SSAPkg("xpath")) {
+		if isTestFile(w, fn.Pos()) {
+			continue
+		}
+		for _, b := range fn.Blocks {
+			for _, in := range b.Instrs {
+				ta, ok := in.(*ssa.TypeAssert)
+				if !ok || !ta.CommaOk {
+					continue
+				}
+				valUsed, okUsed := false, false
+				for _, ref := range *ta.Referrers() {
+					ex, isEx := ref.(*ssa.Extract)
+					if !isEx {
+						continue
+					}
+					used := false
+					for _, r2 := range *ex.Referrers() {
+						if _, isDbg := r2.(*ssa.DebugRef); !isDbg {
+							used = true
+						}
+					}
+					if ex.Index == 0 {
+						valUsed = valUsed || used
+					} else {
+						okUsed = okUsed || used
+					}
+				}
+				if !valUsed {
+					continue // a pure type test
+				}
+				n++
+				r.Check(okUsed, rule, fmt.Sprintf("%s: %s", funcKey(fn), w.PosStr(ta.Pos())), ta.Pos(), "the ok flag is tested", "the value of a checked type assertion is used without looking at its ok flag: when the assertion fails the zero value travels on (a nil Datum reaches the result, which then has neither a value nor an error)")
+			}
+		}
+	}
+	if n == 0 {
+		panic(undecided{"package xpath: no checked type assertion found"})
 	}
 }
